@@ -50,6 +50,7 @@ OP_BOUND_S = 2 * SLEEP_S + 6.0   # no reply from the scenario for this long ⇒ 
 CLOSE_SLACK_S = 3.0  # close() must return within (sleep still owed by scripted sleeps) + this
 MAX_TIMED = 4        # timed calls per scenario (keeps Σ timeouts well below SLEEP_S)
 
+SETTLE_ERR_S = 0.25  # pause after a call that raised (a failed worker is shutting down)
 PRE_SETTLE_S = 0.3   # extra pause before a call with a zero / tiny time budget (replies must be there)
 TMO = {0: None, 1: TIMEOUT_S, 2: 0, 3: 0.001}     # wire code of a timeout argument → seconds
 
@@ -184,7 +185,7 @@ def scenario_child(scn: dict, wfd: int) -> None:
         except BaseException as e:  # noqa: BLE001 — the outcome IS the exception class
             r = canon_exc(e, name)
         dt = time.monotonic() - t0
-        time.sleep(SETTLE_S)
+        time.sleep(SETTLE_S if r == "ok" else SETTLE_ERR_S)   # a worker that failed needs time to exit
         if env is None:
             rec = {"i": i, "out": r, "state": "gone", "closed": 1, "dt": round(dt, 3),
                    "alive": [int(p.is_alive()) for p in procs]}
@@ -1124,7 +1125,7 @@ def run(chk: Check) -> None:
     chk.assumptions = [
         "PARTIAL: liveness, timing and OS-level process death are assumptions of the protocol model (A1–A8 in "
         "Model/VecProto.lean), validated only by fault injection, not derived: a live worker answers before the next "
-        "call (80 ms settle pause, 300 ms before a call with a zero / 1 ms budget; a failing scenario must fail twice "
+        "call (80 ms settle pause, 250 ms after a call that raised, 300 ms before a call with a zero / 1 ms budget; a failing scenario must fail twice "
         "to be reported), send to an ended process raises BrokenPipeError, recv from it raises EOFError "
         "(ConnectionResetError is canonicalised to these), a scripted sleep (4 s) outlasts every timed wait (≤ 0.25 s) "
         "and is finite for an untimed one, a `stuck` sub-environment (1 h) never comes back, terminate()/SIGKILL end "
